@@ -279,11 +279,41 @@ def run(tier):
                  "from_paragraph(empty paragraph) yields %s; expected an error naming %s" % (msgs or [str(r)[:80] for _, r, _ in res5], first_key), fns["from_paragraph"]["sp"])
     C.floor("C16/fields", nfields, FLOOR_FIELDS, "fields of deriving structs")
     check_backends(F, C)
+    check_empty_value(F, C)
     C.assumptions += ["opaque field types (lossy Relations, Version, Url, NaiveDate, PathBuf, ParsedVcs) print and parse an atom unchanged: " + "; ".join("%s (%s)" % kv for kv in OPAQUE_TYPES.items()),
                       "paragraph back-ends implement ordered list semantics for get/set/remove (C04, C08)"]
     return C.finish("The derive-generated from_paragraph / to_paragraph / update_paragraph of every deriving struct are interpreted over symbolic values "
                     "(all optionals present / all absent) against an ordered list-of-pairs paragraph: key set and order, custom (de)serialiser agreement, "
                     "read-back equality, update touching only own keys, removal of absent optionals, foreign field preservation and the missing-field error text.")
+
+
+def check_empty_value(F, C):
+    """update_paragraph writes empty strings for empty lists / empty optional strings: the lossless back-end must turn
+    that into a terminated field whose value reads back empty"""
+    import treemodel
+    P = "deb822_lossless::lossless::"
+    f = F.fn(P + "Entry::new")
+    if not C.ob("C16/anchor", P + "Entry::new", f is not None, "not found"):
+        return
+    tm = treemodel.TreeMod(F, "deb822_lossless::lex::SyntaxKind")
+    I = hirai.Interp(F, tm, max_depth=12)
+    old = hirai.INT_BOUND
+    hirai.INT_BOUND = 32
+    try:
+        res = I.inline(f, [symstr.lit("K"), symstr.lit("")], hirai.State(depth=0))
+        ok = False
+        detail = "%d outcomes" % len(res)
+        if len(res) == 1 and res[0][0] == OK:
+            v = I.deref_val(res[0][2], res[0][1])
+            if v[0] == "enum" and v[2] and v[2][0][0] == "abs" and v[2][0][1] == "nref":
+                h = treemodel.heap_get(res[0][2])
+                text = symstr.show(symstr.mk(tm.text_of(h, v[2][0][2])))
+                kinds = [h[c][2] for c in h[v[2][0][2]][3]]
+                ok = text.startswith("K:") and text.endswith("\n") and kinds[-1] == "NEWLINE" and "VALUE" in kinds
+                detail = "Entry::new(K, \"\") builds %r with token kinds %s" % (text, kinds)
+        C.ob("C16/lossless-empty-value", "Entry::new with an empty value", ok, detail + " (an empty value must still give a newline-terminated field with an empty VALUE)", f["sp"])
+    finally:
+        hirai.INT_BOUND = old
 
 
 def check_backends(F, C):
